@@ -9,6 +9,8 @@ var verifC02Pool = []string{
 	"/{v}", "/{v}/b", `/{v:\d+}`, "/x{v}", "/{num}", "/{all}", "/{v}.x", "/a[/{v}[/{w}]]", "/{v}[.x]", "/{any}/a", "/a[/{v}]",
 	`/{v:\d+}/{w:[a-z]+}/{u}`, "/{v}-{w}", `/{v:[a-z]+}{w:\d+}`, "/s/{file:.+}", `/s/{file:.+\.(?:css|js)}`, "/a/{v}/b[/{w}]",
 	"/a", "/a.b",
+	// custom regex on a variable whose name is also a global variable
+	`/p/{num:[0-9]{2}}`, `/{any:\d+}`, `/a/{all:[a-z]+}`,
 }
 
 // verifReconstruct rebuilds the path from the pattern and the reported
@@ -118,11 +120,15 @@ func verifParamsOK(pat string, path string, ps Params) bool {
 
 func verifHarness_C02_params() {
 	pat := verifC02Pool[verifCfg()%len(verifC02Pool)]
-	cached := verifCfg() >= len(verifC02Pool)
+	mode := verifCfg() / len(verifC02Pool) // 0 cache off, 1 cache on, 2 cache of capacity 1 with an eviction in between
+	cached := mode >= 1
 	var r *Router
-	if cached {
+	switch mode {
+	case 1:
 		r = New(EnableCaching)
-	} else {
+	case 2:
+		r = New(CachingWithNum(1))
+	default:
 		r = New()
 	}
 	rt := r.GET(pat, verifNop)
@@ -141,6 +147,13 @@ func verifHarness_C02_params() {
 	}
 	verifAssert(verifParamsOK(pat, p, ps), "params are the variable names and substitute back to the path, values satisfy their regex")
 	verifCover("C02 dynamic match")
+	if mode == 2 {
+		// another request of the same length in between (it may evict p's entry)
+		q := verifNormalPathN("q", len(p))
+		if gq, pq, _ := r.QuickMatch("GET", q); gq != nil && !verifIsStaticPattern(pat) {
+			verifAssert(verifParamsOK(pat, q, pq), "params of the interleaved request satisfy the statement")
+		}
+	}
 	if cached {
 		got2, ps2, _ := r.QuickMatch("GET", p)
 		verifAssert(got2 != nil, "repeat request still matches")
